@@ -15,6 +15,7 @@ exact Dijkstra (costs as integer pairs (a, b)) for reachability and the minimum.
 """
 import itertools
 import math
+import os
 from fractions import Fraction
 
 import numpy as np
@@ -70,6 +71,80 @@ def real_search(case):
     except (IndexError, OverflowError) as ex:
         return "err:" + type(ex).__name__, None
     return "ok", np.asarray(out.data, dtype=np.float64)
+
+
+HANG_S = 30.0       # a single a_star_search call on an 8x8 raster takes well under a millisecond
+MAX_HANGS = 3
+
+
+def _read_exact(fd, n, timeout):
+    import select
+    buf = b""
+    while len(buf) < n:
+        ready, _, _ = select.select([fd], [], [], timeout)
+        if not ready:
+            return None
+        chunk = os.read(fd, n - len(buf))
+        if not chunk:
+            raise EOFError
+        buf += chunk
+    return buf
+
+
+def guarded_search(cases):
+    """real_search for every case, computed in a forked child: numba's nopython loops cannot be
+    interrupted, so a call that does not return within HANG_S seconds is killed and reported as
+    ('hang', None); after MAX_HANGS hangs the remaining cases get ('skipped', None)"""
+    import pickle
+    import signal
+    import struct
+    cases = list(cases)
+    out = []
+    hangs = 0
+    while len(out) < len(cases):
+        if hangs >= MAX_HANGS:
+            out.extend([("skipped", None)] * (len(cases) - len(out)))
+            break
+        start = len(out)
+        rfd, wfd = os.pipe()
+        pid = os.fork()
+        if pid == 0:
+            try:
+                os.close(rfd)
+                for c in cases[start:]:
+                    try:
+                        res = real_search(c)
+                    except Exception as ex:          # noqa: BLE001  (reported, not swallowed)
+                        res = ("err:" + type(ex).__name__, None)
+                    blob = pickle.dumps(res)
+                    os.write(wfd, struct.pack("<I", len(blob)) + blob)
+            finally:
+                os._exit(0)
+        os.close(wfd)
+        try:
+            while len(out) < len(cases):
+                # the first frame of a child may include a JIT compilation
+                head = _read_exact(rfd, 4, HANG_S * (4 if len(out) == start else 1))
+                if head is None:
+                    out.append(("hang", None))
+                    hangs += 1
+                    break
+                body = _read_exact(rfd, struct.unpack("<I", head)[0], HANG_S)
+                if body is None:
+                    out.append(("hang", None))
+                    hangs += 1
+                    break
+                out.append(pickle.loads(body))
+        except EOFError:
+            out.append(("err:child-died", None))
+        finally:
+            try:
+                os.kill(pid, signal.SIGKILL)
+            except ProcessLookupError:
+                pass
+            os.waitpid(pid, 0)
+            os.close(rfd)
+    return out
 
 
 def search_request(case):
@@ -197,6 +272,8 @@ def oracle_search(case, status, out):
     ys, xs = ras["y"].data, ras["x"].data
     if case["conn"] not in (4, 8):
         return None
+    if status == "hang":
+        return ("hang", f"a_star_search did not return within {HANG_S:.0f} s on a {h}x{w} raster (the search loop does not terminate)")
     if h < 2 or w < 2:
         return None          # a one-cell axis has no spacing: outside the property's domain
     pts = dict(sy=float(F(case["sy"])), sx=float(F(case["sx"])), gy=float(F(case["gy"])), gx=float(F(case["gx"])))
@@ -502,8 +579,11 @@ def compare_search(r, stream, case, status, out, rep):
 
 def run_searches(r, stream, cases, tags_of=None):
     reqs, keep = [], []
-    for c in cases:
-        status, out = real_search(c)
+    cases = list(cases)
+    for c, (status, out) in zip(cases, guarded_search(cases)):
+        if status == "skipped":
+            r.tag("skipped-after-hangs")
+            continue
         bad = oracle_search(c, status, out)
         nn = 0 if out is None else int((~np.isnan(out)).sum())
         tags = [f"stream:{stream}", f"conn:{c['conn']}", f"status:{status}",
@@ -536,6 +616,28 @@ def malformed_cases(rng):
     return out
 
 
+def run_rejections(r):
+    """inputs the documented interface rejects (no model counterpart: the model starts at a 2-D raster)"""
+    from xrspatial import a_star_search
+    base = np.ones((3, 3))
+    co = {"y": np.arange(3.0), "x": np.arange(3.0)}
+    probes = {
+        "3-D surface": lambda: a_star_search(xr.DataArray(np.ones((2, 3, 3)), dims=["b", "y", "x"]), (0, 0), (1, 1)),
+        "dims not named as x=/y= say": lambda: a_star_search(xr.DataArray(base, dims=["lat", "lon"],
+                                                              coords={"lat": co["y"], "lon": co["x"]}), (0, 0), (1, 1)),
+        "dims swapped": lambda: a_star_search(xr.DataArray(base, dims=["x", "y"], coords=co), (0, 0), (1, 1)),
+    }
+    for name, call in probes.items():
+        r.case(dict(kind="reject", what=name), nontrivial=True, tags=["stream:malformed"])
+        try:
+            call()
+            r.fail("malformed", f"{name}: accepted (documented: ValueError)", dict(kind="reject", what=name))
+        except ValueError:
+            pass
+        except Exception as ex:          # noqa: BLE001
+            r.fail("malformed", f"{name}: raised {type(ex).__name__} instead of ValueError", dict(kind="reject", what=name))
+
+
 def corpus_cases(r):
     return [b["case"] if "case" in b else b for b in r.corpus()]
 
@@ -551,18 +653,20 @@ def replay_case(r, c):
             if bad:
                 return bad[1]
         return None
+    if c["kind"] == "reject":
+        return None
     if c["kind"] == "snap":
         got, data = real_snap(c)
         bad = oracle_snap(c, got, data)
         return bad[1] if bad else None
-    status, out = real_search(c)
+    status, out = guarded_search([c])[0]
     bad = oracle_search(c, status, out)
     return bad[1] if bad else None
 
 
 def key_of(c, text):
     if c["kind"] == "search":
-        status, out = real_search(c)
+        status, out = guarded_search([c])[0]
         bad = oracle_search(c, status, out)
         return bad[0] if bad else "path"
     return {"pixel": "D6:pixel-id", "snap": "D7:snap"}[c["kind"]]
@@ -579,6 +683,9 @@ def run(r, scale=1):
               "2x3/3x2 complete + a sample of 3x3); mazes: random 2..8 x 2..8 grids, barrier density 0.15-0.5, NaN "
               "cells, 0-2 barrier values, all coordinate kinds, points off-centre, snap on/off. Non-trivial = distinct "
               "case whose result is not the single start=goal cell.")
+    # compile the numba kernels in this process (children are forked from it); the start cell is a
+    # barrier, so the search loop is never entered
+    real_search(unit_case([[0.0, 0.0], [0.0, 0.0]], 8, (0, 0), (1, 1)))
     # corpus first
     for c in corpus_cases(r):
         txt = replay_case(r, c)
@@ -604,8 +711,9 @@ def run(r, scale=1):
                                     (r.rng.randrange(h), r.rng.randrange(w)), r.rng.random() < 0.7, r.rng.random() < 0.7,
                                     descending=r.rng.random() < 0.5))
     run_searches(r, "small-snap", snap_small)
-    run_searches(r, "mazes", [maze_case(r.rng) for _ in range((700 if quick else 8000) * scale)])
+    run_searches(r, "mazes", [maze_case(r.rng) for _ in range((700 if quick else 15000) * scale)])
     run_searches(r, "malformed", malformed_cases(r.rng))
+    run_rejections(r)
     r.assumptions += [
         "costs: theorems over exact arithmetic (any ordered field with s*s = 2); the float run is compared bit for bit with the model executed over IEEE doubles",
         "points are taken within half a cell of the axis extent (outside it the code mirrors about the first centre; not judged)",
@@ -616,8 +724,12 @@ def run(r, scale=1):
 
 
 def search(r):
-    """an obligation or the correspondence broke: run the oracles on more cases"""
-    run(r, scale=3)
+    """an obligation or the correspondence broke: run the oracles on more (random) cases"""
+    quick = r.tier == "quick"
+    run_pixel(r, 4000 if quick else 20000, own_sweep=False)
+    run_snap(r, 1500 if quick else 6000, lone_max=3)
+    run_searches(r, "exhaustive", exhaustive_cases([(3, 3)], sample=0.04 if quick else 0.2, rng=r.rng))
+    run_searches(r, "mazes", [maze_case(r.rng) for _ in range(2500 if quick else 12000)])
 
 
 def replay(r, body):
